@@ -219,6 +219,9 @@ func genMediaPlan(focus string) func(tp *simrt.Tape, seed uint64, tier string) a
 				p.Events[j], p.Events[j-1] = p.Events[j-1], p.Events[j]
 			}
 		}
+		// the write towards a subscriber is a scheduling point in some runs
+		// (a buffer handed to the transport must stay untouched until it has left)
+		p.WriteYield = tp.Chance(1, 3)
 		return p
 	}
 }
@@ -424,6 +427,7 @@ func runMedia(focus string, checks ...string) func(c *Ctx, plan any) {
 	return func(c *Ctx, plan any) {
 		p := plan.(*mediaPlan)
 		w := newMediaWorld(c, p)
+		w.focus = focus
 		for _, k := range checks {
 			w.check[k] = true
 		}
